@@ -615,6 +615,47 @@ def _run(*, tier, seed, jobs, progress, opts):
         for vs, n in pool.imap_unordered(_contention, ctasks, chunksize=8):
             violations += vs
             cexec += n
+    # E7: two server threads/processes on one maildir, every schedule of
+    # their filesystem calls with <= bound preemptions
+    from . import c04mt
+    if tier == 'quick':
+        core = ['APPEND', 'SELECT', 'COPY', 'MOVE', 'EXPUNGE']
+        mtasks = [('++', pr, False, 1, None) for pr in c04mt.pairs(core)]
+        mtasks += [('++', pr, True, 1, None) for pr in c04mt.pairs(core)
+                   if 'SELECT' in pr or pr == ('APPEND', 'APPEND')]
+    else:
+        mtasks = [(layout, pr, d, 1, None) for layout in ('++', 'fs')
+                  for pr in c04mt.pairs(c04mt.ORDER) for d in (False, True)]
+        core = ['APPEND', 'SELECT', 'COPY', 'MOVE']
+        mtasks += [('++', pr, d, 2, None) for pr in c04mt.pairs(core)
+                   for d in (False, True)]
+    if 'mt' in opts:
+        mtasks = [t for t in mtasks if t[3] <= int(opts['mt'])]
+    mt_cov = {'pairs': 0, 'executions': 0, 'max_decision_points': 0,
+              'distinct_outcomes': 0, 'by_preemptions': {}, 'capped': False,
+              'bounds': sorted({t[3] for t in mtasks})}
+    # longest first
+    mtasks.sort(key=lambda t: -t[3])
+    with mp.get_context('fork').Pool(jobs or 16) as pool:
+        for st in pool.imap_unordered(c04mt.task, mtasks, chunksize=1):
+            if 'error' in st:
+                raise RuntimeError(f'E7 harness error: {st}')
+            mt_cov['pairs'] += 1
+            mt_cov['executions'] += st['executions']
+            mt_cov['distinct_outcomes'] += st['outcomes']
+            mt_cov['max_decision_points'] = max(
+                mt_cov['max_decision_points'], st['max_points'])
+            mt_cov['capped'] = mt_cov['capped'] or st['capped']
+            for k, n in st['by_preemptions'].items():
+                mt_cov['by_preemptions'][str(k)] = \
+                    mt_cov['by_preemptions'].get(str(k), 0) + n
+            violations += st['violations']
+            if progress:
+                print(f'# E7 {st["names"]}: {st["executions"]} schedules, '
+                      f'{st["outcomes"]} outcomes', flush=True)
+    cov['threads'] = mt_cov
+    cov['transitions'] += mt_cov['executions']
+    cov['traces_validated_against_impl'] += mt_cov['executions']
     cov['lock_contention_executions'] = cexec
     cov['transitions'] += cexec
     cov['traces_validated_against_impl'] += cexec
@@ -634,17 +675,43 @@ def _run(*, tier, seed, jobs, progress, opts):
                    '0..5) retry timers fired between them; and a foreign '
                    'process taking the lock between two filesystem calls of '
                    'the server: at every mutating filesystem call (0..89) '
-                   'after both commands arrived, released after 0/1/2/4 timers')
+                   'after both commands arrived, released after 0/1/2/4 timers; '
+                   'E7: two real server instances (own backend objects and '
+                   'event loop, as two worker threads or two processes have) '
+                   'on one maildir, each running one command of {APPEND, '
+                   'SELECT, COPY, MOVE, EXPUNGE, NOOP, STATUS, APPEND without '
+                   'selection} (optionally with an undelivered file in new/), '
+                   'every schedule of their filesystem calls with at most 1 '
+                   '(thorough: core pairs 2) preemptions; afterwards every '
+                   'session and a fresh one dump the mailboxes')
     return finish(PROP, tier=tier, seed=seed, level='model_checking',
                   coverage=cov, violations=violations, t0=t0, assumptions=[
                       'owned PRNG: adversarial collisions of the 16 random '
                       'UIDVALIDITY bits are not explored',
-                      'asyncio subsystem; concurrent adders under worker '
-                      'threads are not explored'])
+                      'E7 reduction: maildir sessions share only the '
+                      'filesystem (each has its own MailboxSet, locks and '
+                      'caches), so thread/process interleavings are explored '
+                      'at filesystem-call granularity; a sleeping lock waiter '
+                      'is woken only after another process changed the disk '
+                      'or when nothing else can run (lock time-outs while '
+                      'others make progress are not explored)'])
 
 
 def replay(rec):
     r = rec['replay']
+    if r.get('mt'):
+        from . import c04mt, mtmaildir as mt
+        names = tuple(r['names'])
+        with scratch_parent():
+            pre = [c04mt.PROGRAMS[n][0](i) for i, n in enumerate(names)]
+            progs = [c04mt.PROGRAMS[n][1](i) for i, n in enumerate(names)]
+            ex, info = mt.run_schedule(r['layout'], progs, r['prefix'],
+                                       deliver=r['deliver'], pre=pre)
+            viols = c04mt.judge(r['layout'], names, r['deliver'], ex, info)
+            mt.drop_templates()
+        for v in viols:
+            print('VIOLATION-REPLAYED', v['rule'], v['site'], v['msg'])
+        return 1 if viols else 0
     if 'params' not in r:
         print(r)
         return 0
